@@ -3,7 +3,8 @@
 
    Proved for all signature trees (any nesting, wrappers, dimensions, shapes, inits) and all argument tuples:
      flip_involutive, flip_reverses_leaves, effective_direction, flatten_each_leaf_once,
-     create_compliant (under the two hypotheses that exclude exactly the recorded defects, each with a _refuted witness),
+     create_compliant (any initial values, representable in the port's shape or not; one hypothesis that excludes
+     exactly the recorded defect C14-flipped-array-of-interfaces, with a _refuted witness),
      connect_ok_spec (every assignment / every input leaf / exactly once / no output, no constant driven),
      connect_error_iff (success criterion: no member missing, kinds, widths, inits, at most one output, dimensions,
      constants, not only inputs), no_missing_member_iff (sorted lock step = same member sets),
@@ -53,28 +54,27 @@ Example C14_effective_direction_example :
   map entry_flow (flat_members (sig_flip x)) = [([0], FIn); ([0; 1], FOut)].
 Proof. vm_compute. split; reflexivity. Qed.
 
-(* --- an interface created from a signature complies with it ---
-   hypotheses: wf_sig = distinct member names per level (dict keys) and every init representable in its shape;
+(* --- an interface created from a signature complies with it, whatever the initial values (the member's constant
+       is brought into the port's shape exactly like the init of the created Signal) ---
+   hypotheses: names_ok = distinct member names per level (dict keys);
                safe_sig = no FlippedInterface proxy has to hand out a list of interfaces. *)
 Theorem C14_create_compliant (x : sigt) (p : path) :
-  wf_sig x = true -> safe_sig x = true -> is_compliant x (create x p) = Ok true.
+  names_ok (top x) = true -> safe_sig x = true -> is_compliant x (create x p) = Ok true.
 Proof. exact (create_compliant x p). Qed.
 Print Assumptions C14_create_compliant.
 
 Example C14_create_compliant_example :
-  let inner := [(0, Port FOut (Sh 3 false) 5 [2%nat; 3%nat]); (1, Port FIn (Sh 2 true) (-1) [])] in
+  (* init 13 does not fit unsigned(3), init 2 does not fit signed(2): the created signals start at 5 and -2 *)
+  let inner := [(0, Port FOut (Sh 3 false) 13 [2%nat; 3%nat]); (1, Port FIn (Sh 2 true) 2 [])] in
   let x := (true, [(4, Iface FIn true inner []); (2, Iface FOut false inner [2%nat]); (7, Port FIn (Sh 0 false) 0 [0%nat])]) in
-  wf_sig x = true /\ safe_sig (sig_flip x) = true /\ is_compliant (sig_flip x) (create (sig_flip x) [PN 0]) = Ok true.
-Proof. vm_compute. repeat split. Qed.
+  names_ok (top x) = true /\ safe_sig (sig_flip x) = true /\
+  is_compliant (sig_flip x) (create (sig_flip x) [PN 0]) = Ok true /\
+  connect [create (sig_flip x) [PN 0]; create x [PN 1]] <> Err ENotCompliant.
+Proof. vm_compute. repeat split. discriminate. Qed.
 
-(* both hypotheses are needed: the faithful model (and the code) violate the unrestricted statement *)
-Theorem C14_create_compliant_refuted_init :
-  exists x p, names_ok (top x) = true /\ safe_sig x = true /\ is_compliant x (create x p) = Ok false.
-Proof. exists (false, [(0, Port FOut (Sh 2 false) 5 [])]), [PN 0]. vm_compute. repeat split. Qed.
-Print Assumptions C14_create_compliant_refuted_init.
-
+(* safe_sig is needed: the faithful model (and the code) violate the unrestricted statement *)
 Theorem C14_create_compliant_refuted_flipped_array :
-  exists x p, wf_sig x = true /\ is_compliant x (create x p) = Err ETypeErr /\ flat_obj x (create x p) = Err ETypeErr.
+  exists x p, names_ok (top x) = true /\ is_compliant x (create x p) = Err ETypeErr /\ flat_obj x (create x p) = Err ETypeErr.
 Proof.
   exists (true, [(0, Iface FOut false [(1, Port FOut (Sh 1 false) 0 [])] [2%nat])]), [PN 0].
   vm_compute. repeat split.
@@ -142,16 +142,17 @@ Qed.
 Print Assumptions C14_flatten_each_leaf_once.
 
 (* --- Signature.flatten(obj) on an interface created from the signature (same hypotheses as create_compliant):
-       exactly the specification leaves, in order: every leaf once, with its effective direction --- *)
+       exactly the specification leaves, in order: every leaf once, with its effective direction, shape and the
+       initial value of its Signal --- *)
 Theorem C14_flatten_created (x : sigt) (p : path) :
-  wf_sig x = true -> safe_sig x = true ->
+  names_ok (top x) = true -> safe_sig x = true ->
   exists ls, flat_obj x (create x p) = Ok ls /\ map strip ls = spec_leaves x.
 Proof. exact (flatten_created x p). Qed.
 Print Assumptions C14_flatten_created.
 
 Example C14_flatten_created_example :
   let x := (true, [(4, Iface FIn true [(0, Port FOut (Sh 3 false) 5 [2%nat])] []); (7, Port FIn (Sh 1 false) 0 [])]) in
-  wf_sig x = true /\ safe_sig x = true /\
+  names_ok (top x) = true /\ safe_sig x = true /\
   match flat_obj x (create x [PN 9]) with
   | Ok ls => map (fun l => (l_path l, l_flow l, l_val l)) ls
   | Err _ => []
